@@ -32,6 +32,7 @@ import (
 	"time"
 
 	"rivaas.dev/app"
+	"rivaas.dev/openapi"
 	"rivaas.dev/router"
 	"rivaas.dev/router/route"
 	"rivaas.dev/router/version"
@@ -52,7 +53,13 @@ type caseT struct {
 	Actors []actorT
 	Plan   []int // schedule prefix; the harness then drains round-robin until every goroutine is done
 	Comp   bool  `json:",omitempty"` // router built with WithRouteCompilation(true)
+	// App: the world is an app.App (app.New with two WithRouter calls): routes through app.GET / app.Group / app.Version,
+	// URLFor through app.URLFor; mounts, Freeze, Warmup and requests on app.Router(). Not a model input: same outcome.
+	App bool `json:",omitempty"`
 }
+
+// routeName: mixed case, a dot, a digit (names are compared as given)
+func routeName(id int) string { return "Users.getByID" + strconv.Itoa(id) }
 
 func isMount(rk int) bool { return rk == 2 || (rk >= 4 && rk <= 6) }
 
@@ -338,13 +345,16 @@ func visTok(a *actor) string {
 // ---------------------------------------------------------------- running one phases case
 
 type world struct {
-	r      *router.Router
-	grp    *route.Group
-	v1, v2 *router.VersionRouter
-	objMu  sync.Mutex
-	objs   map[int]*route.Route // retained route objects by id
-	kindOf map[int]actorT
-	subs   map[int]*router.Router // sub-routers of the mount registrations
+	app      *app.App
+	agrp     *app.Group
+	av1, av2 *app.VersionGroup
+	r        *router.Router
+	grp      *route.Group
+	v1, v2   *router.VersionRouter
+	objMu    sync.Mutex
+	objs     map[int]*route.Route // retained route objects by id
+	kindOf   map[int]actorT
+	subs     map[int]*router.Router // sub-routers of the mount registrations
 }
 
 func (w *world) handler(id int) router.HandlerFunc {
@@ -388,6 +398,27 @@ func (w *world) get(id int, valInt bool, final bool) string {
 		req.Header.Set("X-API-Version", "v2")
 	}
 	w.r.ServeHTTP(rec, req)
+	if final && isMount(a.RK) && valInt {
+		// what else belongs to an accepted mount: the static route that ends in a slash, the second prefix of the same
+		// sub-router (even ids); and, mounted or not, the sub-router still serves its own routes itself
+		want := rec.Code == http.StatusOK
+		extra := []string{"/m" + strconv.Itoa(id) + "/docs/"}
+		if a.R%2 == 0 {
+			extra = append(extra, "/twin"+w.reqPath(id, valInt), "/twin/m"+strconv.Itoa(id)+"/docs/")
+		}
+		for _, p := range extra {
+			r2 := httptest.NewRecorder()
+			w.r.ServeHTTP(r2, httptest.NewRequest(http.MethodGet, p, nil))
+			if (r2.Code == http.StatusOK && r2.Header().Get("X-Route") == strconv.Itoa(id)) != want {
+				return "1 " + strconv.Itoa(700000+id) // part of the mount is routable and part is not
+			}
+		}
+		r3 := httptest.NewRecorder()
+		w.subs[id].ServeHTTP(r3, httptest.NewRequest(http.MethodGet, "/docs/", nil))
+		if r3.Code != http.StatusOK {
+			return "1 " + strconv.Itoa(600000+id) // the sub-router lost its own route
+		}
+	}
 	if rec.Code == http.StatusOK {
 		if a.RK >= 200 && rec.Header().Get("X-Route") == strconv.Itoa(a.RK-200) {
 			// a version without a tree for the method is served from the default version's tree (C13's subject):
@@ -455,6 +486,21 @@ func (w *world) do(a actorT) (out string) {
 		}
 		var rt *route.Route
 		p := panics(func() {
+			ah := func(c *app.Context) { w.handler(a.R)(c.Context) }
+			switch {
+			case w.app != nil && rk == 0:
+				rt = w.app.GET(pattern, ah)
+				return
+			case w.app != nil && rk == 1:
+				rt = w.agrp.GET(pattern, ah)
+				return
+			case w.app != nil && rk == 3:
+				rt = w.av1.GET(pattern, ah)
+				return
+			case w.app != nil && rk == 7:
+				rt = w.av2.GET(pattern, ah)
+				return
+			}
 			switch rk {
 			case 0:
 				rt = w.r.GET(pattern, w.handler(a.R))
@@ -469,6 +515,9 @@ func (w *world) do(a actorT) (out string) {
 					})))
 				} else {
 					w.r.Mount(prefix, w.subs[a.R])
+				}
+				if a.R%2 == 0 { // the same sub-router under a second prefix (both mounts belong to this one registration)
+					w.r.Mount("/twin"+prefix, w.subs[a.R])
 				}
 			case 3:
 				rt = w.v1.GET(pattern, w.handler(a.R))
@@ -496,7 +545,7 @@ func (w *world) do(a actorT) (out string) {
 			} else if a.K == "B" {
 				rt.WhereRegex("zz", hx.Pick(hx.NewRand(uint64(a.R)), []string{"[0-9", "(?P<", "a(b"})) // regexp.Compile rejects it
 			} else {
-				rt.SetName("n" + strconv.Itoa(a.R))
+				rt.SetName(routeName(a.R))
 			}
 		})
 		if p {
@@ -504,7 +553,12 @@ func (w *world) do(a actorT) (out string) {
 		}
 		return "M a"
 	case "U":
-		_, err := w.r.URLFor("n"+strconv.Itoa(a.R), map[string]string{"id": "12"}, nil)
+		var err error
+		if w.app != nil {
+			_, err = w.app.URLFor(routeName(a.R), map[string]string{"id": "12"}, nil)
+		} else {
+			_, err = w.r.URLFor(routeName(a.R), map[string]string{"id": "12"}, nil)
+		}
 		switch {
 		case err == nil:
 			return "U o"
@@ -521,7 +575,20 @@ func (w *world) do(a actorT) (out string) {
 func runPhases(id string, k caseT, st *hx.Stats) string {
 	hookOn.Do(func() { router.VerifSetYield(yieldHook) })
 	w := &world{objs: map[int]*route.Route{}, kindOf: map[int]actorT{}, subs: map[int]*router.Router{}}
-	w.r = router.MustNew(router.WithVersioning(version.WithHeaderDetection("X-API-Version"), version.WithDefault("v1")), router.WithRouteCompilation(k.Comp))
+	if k.App {
+		a, err := app.New(app.WithServiceName("verif-c12"), app.WithServiceVersion("v0.0.0"),
+			app.WithRouter(router.WithVersioning(version.WithHeaderDetection("X-API-Version"), version.WithDefault("v1"))),
+			app.WithRouter(router.WithRouteCompilation(k.Comp)))
+		if err != nil {
+			panic("app.New: " + err.Error())
+		}
+		w.app, w.r = a, a.Router()
+		w.agrp = a.Group("/g")
+		w.av1 = a.Version("v1")
+		w.av2 = a.Version("v2")
+	} else {
+		w.r = router.MustNew(router.WithVersioning(version.WithHeaderDetection("X-API-Version"), version.WithDefault("v1")), router.WithRouteCompilation(k.Comp))
+	}
 	w.grp = w.r.Group("/g")
 	w.v1 = w.r.Version("v1")
 	w.v2 = w.r.Version("v2")
@@ -551,7 +618,8 @@ func runPhases(id string, k caseT, st *hx.Stats) string {
 			} else {
 				sub.GET(pattern, w.handler(a.R))
 			}
-			if a.RK >= 5 { // a sub-router that served (or was warmed up) on its own before it is mounted
+			sub.GET("/docs/", w.handler(a.R)) // a static route that ends in a slash: mounted as <prefix>/docs/
+			if a.RK >= 5 {                    // a sub-router that served (or was warmed up) on its own before it is mounted
 				sub.Warmup()
 			}
 			w.subs[a.R] = sub
@@ -714,6 +782,9 @@ func runPhases(id string, k caseT, st *hx.Stats) string {
 		}
 		if k.Comp {
 			st.Count("route_compilation_on")
+		}
+		if k.App {
+			st.Count("world_is_an_app")
 		}
 		if critical {
 			st.Count("switch_inside_once_body")
@@ -1267,22 +1338,40 @@ func runStress(id string, r *hx.Rand, st *hx.Stats) string {
 	return l.String()
 }
 
-// runApp: the same rule one layer up (app/lifecycle.go, app/app.go, app/version_group.go): routes, version
-// routes and lifecycle hooks are accepted before the router is frozen and panic afterwards; the frozen app
-// serves exactly what was registered before. Sequential; reported like a stress run.
+// runApp: the same rule one layer up (app/app.go, app/group.go, app/version_group.go, app/lifecycle.go, app/options.go):
+// routes registered through app.App, app.Group (nested, trailing-slash and root patterns), app.Version(v) and its
+// (nested) groups before the router is frozen are routable at prefix+pattern; names set on them reverse through
+// app.URLFor; routes, hooks and documented routes (app.WithDoc) are rejected afterwards and leave no trace — not in the
+// routing table and not in the specification the app serves. The router options arrive through TWO app.WithRouter
+// calls (they accumulate). Sequential; reported like a stress run.
 func runApp(id string, viaRequest bool, st *hx.Stats) string {
 	var bad []string
 	fail := func(f string, a ...any) { bad = append(bad, fmt.Sprintf(f, a...)) }
 	a, err := app.New(app.WithServiceName("verif-c12"), app.WithServiceVersion("v0.0.0"),
-		app.WithRouter(router.WithVersioning(version.WithHeaderDetection("X-API-Version"), version.WithDefault("v1"))))
+		app.WithRouter(router.WithVersioning(version.WithHeaderDetection("X-API-Version"), version.WithDefault("v1"))),
+		app.WithRouter(router.WithRouteCompilation(viaRequest)),
+		app.WithOpenAPI(openapi.WithTitle("verif-c12", "0.0.0")))
 	if err != nil {
 		fail("app.New: %v", err)
 	} else {
-		h := func(c *app.Context) { _ = c.String(http.StatusOK, "ok") }
-		get := func(p string) int {
+		type seenT struct{ id string }
+		h := func(id string) app.HandlerFunc {
+			return func(c *app.Context) {
+				c.Response.Header().Set("X-Route", id)
+				_ = c.String(http.StatusOK, "ok")
+			}
+		}
+		get := func(p string) (int, string) {
 			rec := httptest.NewRecorder()
 			a.Router().ServeHTTP(rec, httptest.NewRequest(http.MethodGet, p, nil))
-			return rec.Code
+			return rec.Code, rec.Header().Get("X-Route")
+		}
+		spec := func() string {
+			b, _, err := a.VerifOpenAPIGenerateSpec(context.Background()) // what the handler of /openapi.json serves
+			if err != nil {
+				return "error: " + err.Error()
+			}
+			return string(b)
 		}
 		hooks := map[string]func(){
 			"OnStart":    func() { a.OnStart(func(context.Context) error { return nil }) },
@@ -1297,14 +1386,49 @@ func runApp(id string, viaRequest bool, st *hx.Stats) string {
 			names = append(names, n)
 		}
 		sort.Strings(names)
-		early := []func(){
-			func() { a.GET("/r1/:id", h) },
-			func() { a.Version("v1").GET("/r3/:id", h) },
-			func() { a.Group("/g").GET("/r2/:id", h) },
+		// registrars: the app, groups (nested), a version, version groups (nested)
+		g := a.Group("/g")
+		gn := g.Group("/in")
+		v1 := a.Version("v1")
+		vg := v1.Group("/vapi")
+		vgn := vg.Group("/deep")
+		type shapeT struct {
+			where   string
+			reg     func(pat, id string, opts ...app.RouteOption) *route.Route
+			prefix  string
+			pattern string
 		}
-		for i, f := range early {
-			if panics(f) {
-				fail("early registration %d panicked", i)
+		regs := map[string]struct {
+			prefix string
+			reg    func(pat, id string, opts ...app.RouteOption) *route.Route
+		}{
+			"app":                  {"", func(p, id string, o ...app.RouteOption) *route.Route { return a.GET(p, h(id), o...) }},
+			"group":                {"/g", func(p, id string, o ...app.RouteOption) *route.Route { return g.GET(p, h(id), o...) }},
+			"nested group":         {"/g/in", func(p, id string, o ...app.RouteOption) *route.Route { return gn.GET(p, h(id), o...) }},
+			"version":              {"", func(p, id string, o ...app.RouteOption) *route.Route { return v1.GET(p, h(id), o...) }},
+			"version group":        {"/vapi", func(p, id string, o ...app.RouteOption) *route.Route { return vg.GET(p, h(id), o...) }},
+			"nested version group": {"/vapi/deep", func(p, id string, o ...app.RouteOption) *route.Route { return vgn.GET(p, h(id), o...) }},
+		}
+		var shapes []shapeT
+		for _, w := range []string{"app", "group", "nested group", "version", "version group", "nested version group"} {
+			tag := strings.ReplaceAll(w, " ", "")
+			for _, pat := range []string{"/" + tag + "-plain", "/" + tag + "-slash/", "/" + tag + "-p/:id"} { // (a parameter route with a trailing slash is the route matcher's business: C01)
+				shapes = append(shapes, shapeT{w, regs[w].reg, regs[w].prefix, pat})
+			}
+			if w != "app" && w != "version" {
+				shapes = append(shapes, shapeT{w, regs[w].reg, regs[w].prefix, "/"}) // the group's root, with the slash
+			}
+		}
+		reqPath := func(sh shapeT) string { return sh.prefix + strings.ReplaceAll(sh.pattern, ":id", "12") }
+		for i, sh := range shapes {
+			id := "e" + strconv.Itoa(i)
+			var rt *route.Route
+			if panics(func() { rt = sh.reg(sh.pattern, id, app.WithDoc(openapi.WithSummary("early "+id))) }) {
+				fail("early registration through %s of %q panicked", sh.where, sh.pattern)
+				continue
+			}
+			if rt != nil && panics(func() { rt.SetName("n" + id) }) {
+				fail("SetName on the early %s route %q panicked", sh.where, sh.pattern)
 			}
 		}
 		for _, n := range names {
@@ -1313,38 +1437,77 @@ func runApp(id string, viaRequest bool, st *hx.Stats) string {
 			}
 		}
 		if viaRequest {
-			if c := get("/r1/12"); c != http.StatusOK {
+			if c, _ := get("/app-plain"); c != http.StatusOK {
 				fail("first request answered %d", c)
 			}
 		} else {
 			a.Router().Freeze()
 		}
-		late := map[string]func(){
-			"app.GET":          func() { a.GET("/r4/:id", h) },
-			"app.Version.GET":  func() { a.Version("v1").GET("/r6/:id", h) },
-			"app.Group.GET":    func() { a.Group("/g").GET("/r5/:id", h) },
-			"app.Version2.GET": func() { a.Version("v2").GET("/r8/:id", h) },
-		}
-		for n, f := range late {
-			if !panics(f) {
-				fail("%s after the freeze did not panic", n)
+		specBefore := spec()
+		for i, sh := range shapes {
+			id := "e" + strconv.Itoa(i)
+			if c, who := get(reqPath(sh)); c != http.StatusOK || who != id {
+				fail("%s route %q registered before the freeze: GET %s answered %d by %q, want 200 by %s", sh.where, sh.pattern, reqPath(sh), c, who, id)
 			}
+			u, err := a.URLFor("n"+id, map[string]string{"id": "12"}, nil)
+			if err != nil {
+				fail("app.URLFor(n%s) for the %s route %q: %v", id, sh.where, sh.pattern, err)
+			} else if c, who := get(u); c != http.StatusOK || who != id {
+				fail("app.URLFor(n%s) = %q for the %s route %q routes back with %d to %q", id, u, sh.where, sh.pattern, c, who)
+			}
+			if !strings.Contains(specBefore, "early "+id) {
+				fail("the documented early %s route %q is missing from the served specification", sh.where, sh.pattern)
+			}
+		}
+		lateN := 0
+		for _, w := range []string{"app", "group", "nested group", "version", "version group", "nested version group"} {
+			tag := strings.ReplaceAll(w, " ", "")
+			for _, pat := range []string{"/" + tag + "-late", "/" + tag + "-late/:id"} {
+				lateN++
+				id := "l" + strconv.Itoa(lateN)
+				if !panics(func() { regs[w].reg(pat, id, app.WithDoc(openapi.WithSummary("late "+id))) }) {
+					fail("registration through %s of %q after the freeze did not panic", w, pat)
+				}
+				if c, who := get(regs[w].prefix + strings.ReplaceAll(pat, ":id", "12")); c == http.StatusOK {
+					fail("late %s route %q is routable (answered by %q)", w, pat, who)
+				}
+			}
+		}
+		if !panics(func() { a.Version("v2").GET("/v2-late", h("l-v2")) }) {
+			fail("registration through a NEW version after the freeze did not panic")
 		}
 		for _, n := range names {
 			if !panics(hooks[n]) {
 				fail("%s after the freeze did not panic", n)
 			}
 		}
-		for _, p := range []string{"/r1/12", "/r3/12", "/g/r2/12"} {
-			if c := get(p); c != http.StatusOK {
-				fail("%s answered %d", p, c)
+		// middleware added after serving began (app.Use, Group.Use, VersionGroup.Use are accepted by design): it must not
+		// reach the chains of routes that are being served
+		late := func(c *app.Context) { c.Response.Header().Set("X-Late-Middleware", "1"); c.Next() }
+		for n, f := range map[string]func(){"app.Use": func() { a.Use(late) }, "Group.Use": func() { g.Use(late) }, "VersionGroup.Use": func() { vg.Use(late) }} {
+			_ = panics(f) // accepted or rejected: both are allowed
+			for _, sh := range shapes {
+				rec := httptest.NewRecorder()
+				a.Router().ServeHTTP(rec, httptest.NewRequest(http.MethodGet, reqPath(sh), nil))
+				if rec.Header().Get("X-Late-Middleware") != "" {
+					fail("%s after the freeze changed the chain of the %s route %q", n, sh.where, sh.pattern)
+					break
+				}
 			}
 		}
-		for _, p := range []string{"/r4/12", "/r6/12", "/g/r5/12", "/r8/12"} {
-			if c := get(p); c == http.StatusOK {
-				fail("late route %s is routable", p)
+		if after := spec(); after != specBefore {
+			what := "differs"
+			if strings.Contains(after, "late l") {
+				what = "advertises a rejected route"
+			}
+			fail("the specification the app serves changed after rejected late registrations (%s): %d -> %d bytes", what, len(specBefore), len(after))
+		}
+		for i, sh := range shapes {
+			if c, who := get(reqPath(sh)); c != http.StatusOK || who != "e"+strconv.Itoa(i) {
+				fail("after the late attempts: GET %s answered %d by %q", reqPath(sh), c, who)
 			}
 		}
+		_ = seenT{}
 	}
 	l := hx.NewLine(id).Tok("S").Nat(0)
 	in := l.String()
@@ -1353,13 +1516,16 @@ func runApp(id string, viaRequest bool, st *hx.Stats) string {
 		l.Tok("OK")
 	} else {
 		sort.Strings(bad)
+		if len(bad) > 12 {
+			bad = append(bad[:12], fmt.Sprintf("… %d more", len(bad)-12))
+		}
 		l.Tok("BAD").Str(strings.Join(bad, "; "))
 	}
 	if st != nil {
 		st.Case(in[len(id):]+id, false)
 		st.Count("app_level_runs")
 	}
-	return l.String()
+	return l.String() + hx.Comment(map[string]any{"Msg": bad})
 }
 
 // ---------------------------------------------------------------- unscheduled kinds run in a child process
@@ -1817,6 +1983,9 @@ func main() {
 			if n%5 == 4 {
 				k.Comp = true // compiled route matching in front of the trees (opt-in configuration)
 			}
+			if n%4 == 1 {
+				k.App = true // the same through the app layer
+			}
 			fmt.Fprintln(w, runPhases(fmt.Sprintf("c12-%d-%d", a.Seed, n), k, st))
 			n++
 		}
@@ -1825,6 +1994,11 @@ func main() {
 			if !k.Comp && !sawDeadlock {
 				k.Comp = true
 				fmt.Fprintln(w, runPhases(fmt.Sprintf("c12-fixc-%d", i), k, st))
+				k.Comp = false
+			}
+			if !sawDeadlock {
+				k.App = true
+				fmt.Fprintln(w, runPhases(fmt.Sprintf("c12-fixa-%d", i), k, st))
 			}
 		}
 		familyOne(emit)
